@@ -32,7 +32,53 @@ class LoopMixin(object):
     def st_While(self, node, state, frame):
         if node.orelse:
             raise AnalysisError("while/else not modelled")
+        as_for = self._worklist_form(node, frame)
+        if as_for is not None:
+            return self.st_For(as_for, state, frame)
         return self.run_loop(node, state, frame, None)
+
+    def _worklist_form(self, node, frame):
+        """while L: x = L.pop(0) ; <body>   (L a local list that the body does
+        not touch otherwise and that is dead after the loop) visits every element
+        of L once: it is read as  for x in L: <body>"""
+        t = node.test
+        if not isinstance(t, ast.Name) or not node.body:
+            return None
+        first = node.body[0]
+        if not (isinstance(first, ast.Assign) and len(first.targets) == 1 and
+                isinstance(first.targets[0], ast.Name) and
+                isinstance(first.value, ast.Call) and
+                isinstance(first.value.func, ast.Attribute) and
+                first.value.func.attr == "pop" and
+                isinstance(first.value.func.value, ast.Name) and
+                first.value.func.value.id == t.id and not first.value.keywords):
+            return None
+        args = first.value.args
+        if len(args) > 1 or (args and not (isinstance(args[0], ast.Constant) and
+                                           args[0].value in (0, -1))):
+            return None
+        front = bool(args) and args[0].value == 0
+        L = t.id
+        if L in frame.func.params:
+            return None
+        for st in node.body[1:]:
+            for x in ast.walk(st):
+                if isinstance(x, ast.Name) and x.id == L:
+                    return None
+        end = getattr(node, "end_lineno", node.lineno)
+        for x in ast.walk(frame.func.node):
+            if isinstance(x, ast.Name) and x.id == L and x.lineno > end:
+                return None
+        it = ast.Name(id=L, ctx=ast.Load()) if front else ast.Call(
+            func=ast.Name(id="reversed", ctx=ast.Load()),
+            args=[ast.Name(id=L, ctx=ast.Load())], keywords=[])
+        new = ast.For(target=first.targets[0], iter=it, body=node.body[1:] or [ast.Pass()],
+                      orelse=[], type_comment=None)
+        ast.copy_location(new, node)
+        ast.fix_missing_locations(new)
+        for x in ast.walk(new.iter):
+            ast.copy_location(x, node)
+        return new
 
     def unroll(self, node, state, frame, items):
         """for x in (c1, c2, ...): body  -- executed once per constant"""
